@@ -216,6 +216,9 @@ class Body:
         ds = self.defs().get(l, [])
         if len(ds) != 1 or depth > 40:
             return ("var", name, l) if name else ("tmp", l)
+        if through_vars == "pure" and l in self.field_written():
+            # an aggregate one of whose fields is assigned later (`let mut t = (i, 0); t.0 += 9`) is not the value it was built as
+            return ("var", name, l) if name else ("tmp", l)
         if through_vars == "pure" and name is not None and l in self.mut_borrows():
             # an object that is borrowed mutably somewhere (`let mut v = vec![..]; .. v.pop()`) is not the value it was created with
             return ("var", name, l)
@@ -282,6 +285,19 @@ class Body:
                         out.setdefault(l, []).append((bi, si))
             self._cache["_mutb"] = out
         return self._cache["_mutb"]
+
+    def field_written(self):
+        """locals a field (or element) of which is assigned directly (`x.f = ..`, `x.0 += ..`, `x[i] = ..`; not through a reference)"""
+        if "_fw" not in self._cache:
+            out = set()
+            for b in self.blocks:
+                if b.get("cleanup"):
+                    continue
+                for st in b["stmts"]:
+                    if st["k"] == "assign" and st["lhs"]["p"] and st["lhs"]["p"][0] != "*":
+                        out.add(st["lhs"]["l"])
+            self._cache["_fw"] = out
+        return self._cache["_fw"]
 
     def _borrow_consumer(self, tmp, bi, si):
         """the callee a temporary `&mut` is handed to (through reborrows `&mut *tmp`, across the blocks of intervening
